@@ -250,7 +250,7 @@ def compare(cases, impl, model, oracle):
         im = impl[i] if i < len(impl) else "<missing>"
         if oracle[i].startswith("bad"):
             bad.append(i)
-        if model[i] not in ("-", "") and strip_rt(model[i]) != strip_rt(im):
+        if model[i] not in ("~", "") and strip_rt(model[i]) != strip_rt(im):
             mism.append(i)
     return bad, mism
 
@@ -450,7 +450,7 @@ def coverage(cases, impl, oracle, model, stats, n_corpus):
         "ops": ops,
         "oracle_checked": sum(1 for o in oracle if o == "ok"),
         "oracle_silent": sum(1 for o in oracle if o in ("-", "")),
-        "model_compared": sum(1 for m in model if m not in ("-", "")),
+        "model_compared": sum(1 for m in model if m not in ("~", "")),
         "impl_panics": sum(1 for x in impl if x.startswith("panic")),
         "samples": [{"case": cases[i][:400], "impl": impl[i][:200], "oracle": oracle[i][:100]}
                     for i in (list(range(0, len(cases), max(1, len(cases) // 5)))[:5] if cases else [])],
